@@ -86,6 +86,11 @@ class MapGen:
         if text in self.texts:
             return len(self.texts) - self.texts[::-1].index(text)  # last id of the text
         self.texts.append(text)
+        if self.opts.get("dup_texts", True) and self.rng.random() < 0.15:
+            # the same text stored under two ids; editors refer to the last one
+            self.texts.append(text)
+            if self.form == "wild" and self.rng.random() < 0.5:
+                return len(self.texts) - 1
         return len(self.texts)
 
     def rand_text(self):
@@ -95,6 +100,12 @@ class MapGen:
         rng = self.rng
         wild = self.form == "wild"
         nloc = self.opts.get("nloc", rng.choice([64, 255, 255]))
+        present = {"VER ", "STR ", "MRGN", "TRIG"}
+        for name in ("UNIS", "UNIx", "UPRP", "UPUS", "SWNM", "WAV "):
+            if self.opts.get("all_sections") or rng.random() < 0.7:
+                present.add(name)
+        if "UPUS" in present and "UPRP" not in present:
+            present.discard("UPUS")
         # locations
         locs = []
         for i in range(nloc):
@@ -124,9 +135,37 @@ class MapGen:
                               "_flags": rng.randrange(32) if not wild else rng.randrange(65536), "_padding": 0})
             else:
                 cuwps.append(dict.fromkeys([f for f, _ in S.CUWP[2]], 0))
+        # twins: a used slot copied into a free one, identical or differing in exactly one field - slots that a
+        # too-coarse notion of "the same unit properties" would merge
+        nz = [i for i, c in enumerate(cuwps) if any(c.values())]
+        zs = [i for i, c in enumerate(cuwps) if not any(c.values())]
+        self.cuwp_twins = []
+        if len(nz) >= 2 and self.opts.get("cuwp_twins", rng.random() < 0.5):
+            for _ in range(rng.choice([1, 2, 4])):
+                i = rng.choice(nz)
+                # into a free slot, or (full, editor-prefilled table) over another used one
+                j = zs.pop(rng.randrange(len(zs))) if zs else rng.choice([k for k in nz if k != i])
+                c = dict(cuwps[i])
+                f = rng.choice([None, "_valid_special_properties_flags", "_valid_unit_properties_flags", "_hitpoints_percentage",
+                                "_shieldpoints_percentage", "_energypoints_percentage", "_resource_amount", "_units_in_hangar",
+                                "_flags"] + (["_padding"] if wild else []))
+                if f in ("_valid_special_properties_flags", "_flags"):
+                    c[f] ^= 1 << rng.randrange(5)
+                elif f == "_valid_unit_properties_flags":
+                    c[f] ^= 1 << rng.randrange(6)
+                elif f == "_padding":
+                    c[f] ^= 1 << rng.randrange(32)
+                elif f is not None:
+                    c[f] = c[f] + 1 if c[f] < 100 else c[f] - 1
+                if any(c.values()):
+                    cuwps[j] = c
+                    self.cuwp_twins += [i + 1, j + 1]
         self.cuwp_ids = [i + 1 for i, c in enumerate(cuwps) if any(c.values())]
+        if "UPRP" not in present:          # no unit-property table: nothing can refer to a slot
+            self.cuwp_ids, self.cuwp_twins = [], []
         # switches, wavs
-        swnm = [self.sid(self.rand_text()) if rng.random() < 0.05 else 0 for _ in range(256)]
+        dens = self.opts.get("swnm_density", rng.choice([0.05, 0.05, 0.5, 0.9]))
+        swnm = [self.sid(self.rand_text()) if rng.random() < dens else 0 for _ in range(256)]
         wavs = [self.sid("staredit\\wav\\" + self.rand_text() + ".wav") if rng.random() < 0.02 else 0 for _ in range(512)]
         self.wav_sids = [w for w in wavs if w]
         # unit settings
@@ -150,15 +189,13 @@ class MapGen:
                     "_unit_string_ids": nm, "_unit_base_weapon_damages": wd, "_unit_upgrade_weapon_damages": wb}
         # triggers
         trigs = [self.trigger() for _ in range(self.opts.get("ntrig", rng.choice([0, 1, 2, 4])))]
+        if self.cuwp_twins and self.loc_ids:
+            trigs.append(self.trigger_referencing("cuwp", self.cuwp_twins))
+        if self.opts.get("sweep"):
+            trigs += self.sweep_triggers()
         # assemble sections
         secs = []
         order = ["VER ", "STR ", "UNIS", "UNIx", "MRGN", "TRIG", "UPRP", "UPUS", "SWNM", "WAV "]
-        present = {"VER ", "STR ", "MRGN", "TRIG"}
-        for name in ("UNIS", "UNIx", "UPRP", "UPUS", "SWNM", "WAV "):
-            if self.opts.get("all_sections") or rng.random() < 0.7:
-                present.add(name)
-        if "UPUS" in present and "UPRP" not in present:
-            present.discard("UPUS")
         payload = {}
         payload["VER "] = struct.pack("H", 205)
         payload["MRGN"] = S.spec_write(S.SPEC_FULL["MRGN"], {"_locations": locs})
@@ -277,6 +314,49 @@ class MapGen:
         if codec == "aiscript":
             return struct.unpack("I", rng.choice([b"JYDg", b"EnBk", b"+Vi0", b"Ab1_", b"zz99"]))[0]
         raise ValueError(codec)
+
+    def sweep_triggers(self):
+        """every condition / action type byte the library has no model for (1..255 minus the supported ones), each
+        once, with random field contents"""
+        rng = self.rng
+        cids = [i for i in range(1, 256) if i not in self.spec["conditions"]]
+        aids = [i for i in range(1, 256) if i not in self.spec["actions"]]
+        out = []
+        while cids or aids:
+            cs, cids = cids[:16], cids[16:]
+            as_, aids = aids[:64], aids[64:]
+            conds = []
+            for i in cs:
+                rec = {f: rng.randrange(2 ** (8 * COND_W[f])) for f in COND_FIELDS}
+                rec["_condition_id"] = i
+                conds.append(rec)
+            acts = []
+            for i in as_:
+                rec = {f: rng.randrange(2 ** (8 * ACTION_W[f])) for f in ACTION_FIELDS}
+                rec["_action_id"] = i
+                acts.append(rec)
+            conds += [dict.fromkeys(COND_FIELDS, 0)] * (16 - len(conds))
+            acts += [dict.fromkeys(ACTION_FIELDS, 0)] * (64 - len(acts))
+            out.append({"_conditions": conds, "_actions": acts,
+                        "_player_execution": {"_execution_flags": 0, "_player_flags": [1] + [0] * 26, "_current_action_index": 0}})
+        return out
+
+    def trigger_referencing(self, codec, values):
+        """a trigger whose actions refer, one each, to the given slots through an action taking that codec"""
+        keys = [k for k in sorted(self.spec["actions"]) if any(c == codec for _, c, _, _ in self.spec["actions"][k]["args"])]
+        acts = []
+        for v in values[:64]:
+            key = self.rng.choice(keys)
+            rec = dict.fromkeys(ACTION_FIELDS, 0)
+            rec["_action_id"] = key
+            for a, c, e, f in self.spec["actions"][key]["args"]:
+                rec[f] = v if c == codec else self.arg_value(c, e, ACTION_W[f])
+                if rec[f] is None:
+                    rec[f] = 0
+            acts.append(rec)
+        acts += [dict.fromkeys(ACTION_FIELDS, 0)] * (64 - len(acts))
+        return {"_conditions": [dict.fromkeys(COND_FIELDS, 0)] * 16, "_actions": acts,
+                "_player_execution": {"_execution_flags": 0, "_player_flags": [1] + [0] * 26, "_current_action_index": 0}}
 
     def trigger(self):
         rng = self.rng
